@@ -46,6 +46,8 @@ type Tap struct {
 	// SlowBig > 0: Write calls of more than 1 MiB are delayed by this much (the mux holds its
 	// write lock meanwhile, so writers racing for the trunk reliably queue up behind it)
 	SlowBig time.Duration
+	// Dribble > 0: every Write call of two bytes or more goes out in two halves, this far apart
+	Dribble time.Duration
 }
 
 func NewTap(c net.Conn) *Tap { return &Tap{Conn: c, limit: -1, tear: -1} }
@@ -88,6 +90,28 @@ func (t *Tap) Write(p []byte) (int, error) {
 	q := p
 	if t.limit >= 0 && int64(len(q)) > t.limit {
 		q = q[:t.limit]
+	}
+	if t.Dribble > 0 && t.limit < 0 && len(q) > 1 {
+		// forward the call in two halves with a pause in between, so that the peer's reader
+		// spends most of its time INSIDE a frame (used with transient read faults)
+		h := len(q) / 2
+		n, err := t.Conn.Write(q[:h])
+		if !t.NoSave {
+			t.rec = append(t.rec, q[:n]...)
+		}
+		if err != nil {
+			return n, err
+		}
+		time.Sleep(t.Dribble)
+		q = q[h:]
+		n, err = t.Conn.Write(q)
+		if !t.NoSave {
+			t.rec = append(t.rec, q[:n]...)
+		}
+		if err != nil {
+			return h + n, err
+		}
+		return len(p), nil
 	}
 	n, err := t.Conn.Write(q)
 	if !t.NoSave {
